@@ -89,11 +89,22 @@ Theorem C02_children_looperror : forall typed asrt fu n pre x post s,
 Proof. exact MutSetRun.set_children_looperror. Qed.
 Print Assumptions C02_children_looperror.
 
-(** Kept visible, not proved: the constructors as "fresh root, then the two
-    assignments" (decided by the correspondence check: spec_run in Corr/Mut.v). *)
-Definition C02_constructors_full : Prop :=
-  forall typed asrt p c h, Inv h -> valid_op (length h) (Construct p c) ->
-    Inv (heap_of (snd (run_op typed asrt no_faults reentry_fuel (Construct p c) (start h)))).
+(** the constructors' parent= / children= arguments behave like the
+    corresponding assignments on a fresh root: Cls(parent=p, children=xs) is
+    allocation of a new node n, then n.parent = p, then - only if xs is
+    non-empty - n.children = xs *)
+Theorem C02_constructors : forall typed asrt fu p xs s,
+  let h := heap_of s in
+  Inv h -> (match p with Some q => q < length h | None => True end) -> NoDup xs ->
+  let n := length h in
+  let h1 := h ++ [empty_cell] in
+  let h2 := eff_set_parent h1 n p in
+  (forall x, In x xs -> x < length h /\ ~ In x (ancestors_of h2 n)) ->
+  construct typed asrt no_faults (S fu) (opt_value p) (Some (CList (map VNode xs))) s =
+  (Ok n, st_after s (match xs with [] => h2 | _ => eff_set_children h2 n xs end)
+           (log_set_parent h1 n p ++ match xs with [] => [] | _ => fst (log_set_children h2 n xs) end)).
+Proof. exact MutSetRun.construct_run. Qed.
+Print Assumptions C02_constructors.
 
 Example C02_example :
   let h := attach_links (attach_links (attach_links (init 4) 1 0) 2 0) 3 1 in
